@@ -1112,6 +1112,50 @@ Qed.
 Lemma exec_fresh_cmp : forall ops rnd, exists s', exec WithCmp fresh ops rnd = Some s' /\ inv s'.
 Proof. intros ops rnd. apply (exec_inv WithCmp ops fresh [] rnd). split; [apply inv_fresh|symmetry; apply pairs_fresh]. Qed.
 
+(* ================================================================ tower heights (the Shape observation) *)
+Local Notation height := (height K V cmp).
+
+Lemma levels_as_map (ls : list (list K)) : ls = map (fun j => nth j ls []) (seq 0 (length ls)).
+Proof.
+  apply (nth_ext _ _ [] []); [rewrite map_length, seq_length; reflexivity|].
+  intros j Hj. rewrite nth_map_seq by auto. reflexivity.
+Qed.
+Lemma filter_map_length {A B} (f : B -> bool) (g : A -> B) l : length (filter f (map g l)) = length (filter (fun x => f (g x)) l).
+Proof. induction l as [|x t IH]; [reflexivity|]. cbn [map filter]. destruct (f (g x)); cbn [length]; rewrite IH; reflexivity. Qed.
+
+Lemma count_downclosed (P : nat -> bool) : forall n,
+  (forall i j, (j <= i)%nat -> (i < n)%nat -> P i = true -> P j = true) ->
+  (length (filter P (seq 0 n)) <= n)%nat /\ forall j, (j < n)%nat -> P j = (j <? length (filter P (seq 0 n)))%nat.
+Proof.
+  induction n as [|n IH]; intros Hd; [split; [cbn; lia|intros; lia]|].
+  destruct IH as [I1 I2]; [intros i j Hji Hi; apply Hd; auto; lia|].
+  rewrite seq_S, filter_app, app_length. cbn [Nat.add filter]. destruct (P n) eqn:En; cbn [length].
+  - assert (Hall : forall j, (j <= n)%nat -> P j = true) by (intros j Hj; apply (Hd n j); auto; lia).
+    assert (Hc : length (filter P (seq 0 n)) = n).
+    { destruct n as [|m]; [reflexivity|]. specialize (I2 m ltac:(lia)). rewrite Hall in I2 by lia.
+      symmetry in I2. apply Nat.ltb_lt in I2. lia. }
+    rewrite Hc. split; [lia|]. intros j Hj. rewrite Hall by lia. symmetry. apply Nat.ltb_lt. lia.
+  - rewrite Nat.add_0_r. split; [lia|]. intros j Hj. destruct (Nat.eq_dec j n) as [->|Hne]; [|apply I2; lia].
+    rewrite En. symmetry. apply Nat.ltb_ge. exact I1.
+Qed.
+
+Lemma height_spec s k : inv s ->
+  (forall j, (j < length (levels s))%nat -> mem k (nth j (levels s) []) = (j <? height s k)%nat) /\
+  (height s k <= level s)%nat /\ (In k (keys0 s) -> (1 <= height s k)%nat).
+Proof.
+  intros Hinv. pose proof (inv_levels_ok s Hinv) as Hok. pose proof Hinv as (A & B & C & D & E & F & G & H).
+  assert (Hh : height s k = length (filter (fun j => mem k (nth j (levels s) [])) (seq 0 (length (levels s))))).
+  { unfold Skip.height. rewrite (levels_as_map (levels s)) at 1. rewrite filter_map_length. reflexivity. }
+  destruct (count_downclosed (fun j => mem k (nth j (levels s) [])) (length (levels s))) as [C1 C2].
+  { intros i j Hji Hi Hm. apply (mem_down k (levels s) Hok i j); auto. }
+  rewrite <- Hh in C1, C2. split; [exact C2|]. split.
+  - destruct (Nat.le_gt_cases (height s k) (level s)) as [|Hgt]; auto. exfalso.
+    specialize (C2 (level s) ltac:(lia)). rewrite (C (level s)) in C2 by lia. cbn in C2.
+    symmetry in C2. apply Nat.ltb_ge in C2. lia.
+  - intros Hin. specialize (C2 0%nat ltac:(lia)). fold (keys0 s) in C2.
+    replace (mem k (keys0 s)) with true in C2 by (symmetry; apply mem_true; auto). symmetry in C2. apply Nat.ltb_lt in C2. lia.
+Qed.
+
 End Chain.
 
 (* ================================================================ closed statements: the Section hypotheses packed as total_order *)
@@ -1182,4 +1226,14 @@ Proof.
     cbn [s_run s_step] in M. destruct (s_step K V cmp [] o) as [m' r'] eqn:Es. cbn [map snd] in *.
     destruct rs as [|r1 [|r [|r3 rs]]]; try discriminate. inversion M as [[M1 M2]].
     destruct r1; try discriminate. exists r. split; auto.
+Qed.
+
+(* the tower height observed by Shape is the number of levels holding the node: k is in level j iff j < height *)
+Theorem height_is_tower K V cmp : total_order K cmp -> forall (s : sk K V) k, inv K V cmp s ->
+  (forall j, (j < maxL)%nat -> In k (nth j (levels s) []) <-> (j < height K V cmp s k)%nat) /\
+  (height K V cmp s k <= level s)%nat /\ (In k (keys0 K V s) -> (1 <= height K V cmp s k)%nat).
+Proof.
+  intros (A & B & C) s k I. destruct (height_spec K cmp A B V s k I) as (H1 & H2 & H3).
+  split; [|split; auto]. intros j Hj. assert (E : length (levels s) = maxL) by apply I.
+  rewrite <- (mem_true K cmp A B). rewrite H1 by lia. apply Nat.ltb_lt.
 Qed.
